@@ -1005,8 +1005,10 @@ def complex_log1p(ctx, z: complex):
     If x is close to -1, then we'll use
 
       real(log1p(x + I * y)) = 0.5 * log((1 + x) ** 2 + y ** 2)
+                             = log(hypot(1 + x, y))
 
-    which is accurate when the following inequalities hold:
+    [hypot avoids the underflow of `y ** 2` when `x == -1`] which is
+    accurate when the following inequalities hold:
 
       -1.5 < x < -0.5  or  abs(x + 1) < 0.5
       abs(y) < sqrt(largest)
@@ -1057,7 +1059,7 @@ def complex_log1p(ctx, z: complex):
     re_B = ctx.log(mx) + half * ctx.log1p(ctx.select(ctx.eq(mn, mx), one, r * r))
 
     # Case C
-    re_C = half * ctx.log(xp1 * xp1 + y * y)
+    re_C = ctx.log(ctx.hypot(xp1, y))
 
     re = ctx.select(mx > safe_max, re_B, ctx.select(axp1 + ay < 0.2, re_C, re_A))
     im = ctx.atan2(y, xp1)
